@@ -299,15 +299,28 @@ class SimpleJSONRPCDispatcher(SimpleXMLRPCDispatcher, object):
         # Get the response dictionary
         try:
             response = self._unmarshaled_dispatch(request, dispatch_method)
-            if response is not None:
-                # Compute the string representation of the dictionary/list
-                return jsonrpclib.jdumps(response, self.encoding)
-            else:
+            if response is None:
                 # No result (notification)
                 return ""
         except NoMulticallResult:
             # Return an empty string (jsonrpclib internal behaviour)
             return ""
+
+        try:
+            # Compute the string representation of the dictionary/list
+            return jsonrpclib.jdumps(response, self.encoding)
+        except Exception as ex:
+            # The response can't be converted to JSON (e.g. the request ID
+            # was a bean, translated by jsonclass)
+            fault = Fault(
+                -32603,
+                "Error converting the response: {0}:{1}".format(
+                    type(ex).__name__, ex
+                ),
+                config=self.json_config,
+            )
+            _logger.error("Error preparing JSON-RPC response: %s", fault)
+            return fault.response()
 
     def _marshaled_single_dispatch(self, request, dispatch_method=None):
         """
